@@ -592,9 +592,11 @@ class TransverselyIsotropic(_Elastic):
         axis_t = AsCoords(axis_t)
         assert axis_l.size == 3 and len(axis_l.shape) == 1, "axis_l must be a 3D vector"
         assert axis_t.size == 3 and len(axis_t.shape) == 1, "axis_t must be a 3D vector"
-        assert axis_l @ axis_t <= 1e-12, "axis1 and axis2 must be perpendicular"
         self.__axis_l = Normalize(axis_l)
         self.__axis_t = Normalize(axis_t)
+        assert (
+            abs(self.__axis_l @ self.__axis_t) <= 1e-12
+        ), "axis1 and axis2 must be perpendicular"
 
     @property
     def Gt(self) -> Union[float, _types.FloatArray]:
@@ -878,9 +880,11 @@ class Orthotropic(_Elastic):
         axis_2 = AsCoords(axis_2)
         assert axis_1.size == 3 and len(axis_1.shape) == 1, "axis_1 must be a 3D vector"
         assert axis_2.size == 3 and len(axis_2.shape) == 1, "axis_2 must be a 3D vector"
-        assert axis_1 @ axis_2 <= 1e-12, "axis1 and axis2 must be perpendicular"
         self.__axis_1 = Normalize(axis_1)
         self.__axis_2 = Normalize(axis_2)
+        assert (
+            abs(self.__axis_1 @ self.__axis_2) <= 1e-12
+        ), "axis1 and axis2 must be perpendicular"
 
     @property
     def axis_1(self) -> _types.FloatArray:
@@ -1164,9 +1168,11 @@ class Anisotropic(_Elastic):
         axis2 = AsCoords(axis2)
         assert axis1.size == 3 and len(axis1.shape) == 1, "axis1 must be a 3D vector"
         assert axis2.size == 3 and len(axis2.shape) == 1, "axis2 must be a 3D vector"
-        assert axis1 @ axis2 <= 1e-12, "axis1 and axis2 must be perpendicular"
         self.__axis1 = Normalize(axis1)
         self.__axis2 = Normalize(axis2)
+        assert (
+            abs(self.__axis1 @ self.__axis2) <= 1e-12
+        ), "axis1 and axis2 must be perpendicular"
 
         self.Set_C(C, useVoigtNotation)
 
